@@ -22,7 +22,6 @@ import (
 	"fmt"
 	"math"
 	"math/big"
-	"os"
 	"strconv"
 	"strings"
 	"unicode/utf8"
@@ -314,26 +313,29 @@ func textrtURLOK(url string) bool {
 
 // textrtMarshalable: does the text encoder accept the content of m (no invalid UTF-8 in a
 // validated string, outside Any values that fall back to the unexpanded form)?
-func textrtUnrep(m protoreflect.Message) (reason string, lossy string) {
+func textrtUnrep(m protoreflect.Message) (reason string, lossy string, urlBad bool) {
 	rtWalk(m, func(x protoreflect.Message) bool {
 		if rtWkt(x.Descriptor()) == "Any" {
 			em, _ := rtResolveAny(x)
 			if em == nil {
 				return true // printed as an ordinary message
 			}
-			r2, l2 := textrtUnrep(em)
+			r2, l2, u2 := textrtUnrep(em)
 			if r2 != "" {
 				return true // expansion fails, printed as an ordinary message
 			}
-			// "any_url" (finding FWD1) is reported only when nothing else makes the value lossy
-			if l2 != "" && (lossy == "" || lossy == "any_url") {
+			if u2 {
+				urlBad = true
+			}
+			// urlBad (finding FWD1) is tracked separately from the other reasons that make a value lossy
+			if l2 != "" {
 				lossy = l2
 			}
 			if !rtAnyCanonical(x, em) {
 				lossy = "any_noncanonical"
 			}
-			if !textrtURLOK(x.Get(rtField(x, 1)).String()) && lossy == "" {
-				lossy = "any_url"
+			if !textrtURLOK(x.Get(rtField(x, 1)).String()) {
+				urlBad = true
 			}
 			return false
 		}
@@ -377,7 +379,10 @@ func textrtOne(c *Ctx, t *rtTarget, m protoreflect.Message, cfg textrtCfg) {
 			c.PropFail("C24", fmt.Sprintf("panic (%s): %v", what, r))
 		}
 	}()
-	reason, lossy := textrtUnrep(m)
+	reason, lossy, urlBad := textrtUnrep(m)
+	if reason != "" {
+		urlBad = false // Marshal fails before anything is expanded
+	}
 	exp := rtBinaryCopyStripped(t, m)
 	if exp == nil && reason == "" {
 		c.PropFail("C24", "content has no binary encoding but is classified valid: "+what)
@@ -392,6 +397,8 @@ func textrtOne(c *Ctx, t *rtTarget, m protoreflect.Message, cfg textrtCfg) {
 		c.Stat("invalid_" + reason)
 	case lossy != "":
 		c.Stat("lossy_" + lossy)
+	case urlBad:
+		c.Stat("lossy_any_url")
 	default:
 		c.Stat("valid")
 	}
@@ -408,10 +415,10 @@ func textrtOne(c *Ctx, t *rtTarget, m protoreflect.Message, cfg textrtCfg) {
 		switch {
 		case reason != "":
 			cls = "nv"
-		case lossy == "any_url":
-			cls = "fwd1"
 		case lossy != "":
 			cls = "nv"
+		case urlBad:
+			cls = "fwd1"
 		}
 		c.Case("textrt", "cls", append([]string{id}, val...), []string{cls})
 	}
@@ -447,7 +454,7 @@ func textrtOne(c *Ctx, t *rtTarget, m protoreflect.Message, cfg textrtCfg) {
 		m2 := t.new()
 		err = prototext.UnmarshalOptions{AllowPartial: true}.Unmarshal(b, m2.Interface())
 		if err != nil {
-			if lossy == "any_url" {
+			if urlBad {
 				c.Known("FWD1", "C24", "expanded Any whose type URL has characters outside the text lexer's URL alphabet does not parse back")
 				c.Stat("known_FWD1")
 				continue
@@ -458,8 +465,8 @@ func textrtOne(c *Ctx, t *rtTarget, m protoreflect.Message, cfg textrtCfg) {
 		if cfg.emitC && (bits == 0 || c.Intn(4) == 0) {
 			c.Case("textrt", "dec", append([]string{id}, tree...), append([]string{"ok"}, msgDump(m2)...))
 		}
-		if lossy == "any_url" {
-			if !proto.Equal(exp.Interface(), m2.Interface()) {
+		if urlBad {
+			if lossy == "" && !proto.Equal(exp.Interface(), m2.Interface()) {
 				c.Known("FWD1", "C24", "expanded Any whose type URL has characters outside the text lexer's URL alphabet changes in a round trip")
 				c.Stat("known_FWD1")
 			}
@@ -470,9 +477,6 @@ func textrtOne(c *Ctx, t *rtTarget, m protoreflect.Message, cfg textrtCfg) {
 		}
 		if proto.Equal(exp.Interface(), m2.Interface()) && rtSameBits(exp, m2) {
 			continue
-		}
-		if os.Getenv("VERIF_RTDEBUG") != "" {
-			fmt.Fprintf(os.Stderr, "ORIG has f1=%v\nEXP %s\nGOT %s\nBIN %x\n", m.Has(m.Descriptor().Fields().Get(0)), prototext.Format(exp.Interface()), prototext.Format(m2.Interface()), rtBinary(m))
 		}
 		c.PropFail("C24", "Unmarshal(Marshal(m)) not Equal strip_unknown(m): "+what+" opts="+ob+" diff: "+rtDiff(exp, m2), HexB(b), HexB(rtBinary(m)))
 	}
